@@ -41,8 +41,8 @@ def run(c):
         "statement captures are compared with the model only (the documentation speaks about expressions)",
     ]
 
-    build_own_theories(c, "Base/Outcome.v", "Filters/FilterIR.v", "Filters/FilterAlgebra.v", "Filters/Predicates.v", "Filters/FilterEval.v", "Filters/ExprFacts.v")
-    c.require_theories("Base/Outcome.v", "Filters/FilterIR.v", "Filters/FilterAlgebra.v", "Filters/Predicates.v", "Filters/FilterEval.v", "Filters/ExprFacts.v")
+    build_own_theories(c, "Base/Outcome.v", "Filters/FilterIR.v", "Filters/FilterAlgebra.v", "Filters/Predicates.v", "Filters/FilterEval.v", "Filters/ExprFacts.v", "Filters/FileFacts.v")
+    c.require_theories("Base/Outcome.v", "Filters/FilterIR.v", "Filters/FilterAlgebra.v", "Filters/Predicates.v", "Filters/FilterEval.v", "Filters/ExprFacts.v", "Filters/FileFacts.v")
 
     # ---- P
     gen_ok = False
@@ -117,6 +117,54 @@ def run(c):
                            expected=pv, observed=o["verdict"])
             c.coverage["helper_model_cases"] = c.coverage.get("helper_model_cases", 0) + len(pred)
 
+    def cstr(s):
+        for ch in s:
+            if ord(ch) < 32 or ord(ch) > 126:
+                raise ValueError("non printable in %r" % s)
+        return '"' + s.replace('"', '""') + '"'
+
+    def compare_imports(rules, alias):
+        """K for File().Imports: RG.Filters.FileFacts.file_imports over the spellings of a file's import path literals (with
+        strconv.Unquote's answers as a table) against the engine's verdict, for every import-spelling file and path."""
+        files = model_in.get(("impfiles", alias)) or []
+        irules = [r for r in rules if r["kind"] == "imports" and not r["name"].startswith("!") and not (r.get("load_err") or r.get("panic"))]
+        if not gen_ok or not files or not irules:
+            return
+        table = {}
+        for f in files:
+            for lit, val in f["specs"]:
+                table[lit] = val
+        src = ["From Coq Require Import List Bool String.", "From RG.Filters Require Import FilterIR FileFacts.",
+               "Import ListNotations. Local Open Scope string_scope.",
+               "Definition unq (s : string) : option string := assoc s [%s]." % "; ".join("(%s, %s)" % (cstr(k), cstr(v)) for k, v in sorted(table.items())),
+               "Definition files : list (list string) := [%s]." % ";\n ".join("[" + "; ".join(cstr(lit) for lit, _ in f["specs"]) + "]" for f in files),
+               "Definition cases : list (nat * string * list bool) := ["]
+        rows = []
+        for k, r in enumerate(irules):
+            if len(r["obs"]) != len(files):
+                c.obligation("harness-sanity:import-files-aligned", False, "%s: %d observations for %d files" % (r["name"], len(r["obs"]), len(files)))
+                return
+            rows.append("(%d%%nat, %s, [%s])" % (k, cstr(r["name"][len("File.Imports:"):]), "; ".join(coq_bool(o["verdict"]) for o in r["obs"])))
+        src.append(";\n".join(rows) + "].")
+        src.append("Definition RES := Eval vm_compute in flat_map (fun c => match c with (k, p, vs) => "
+                   "map (fun x => (k, fst x)) (filter (fun x => negb (Bool.eqb (file_imports unq (fst (snd x)) p) (snd (snd x)))) "
+                   "(combine (seq 0 (List.length files)) (combine files vs))) end) cases.")
+        src.append("Print RES.")
+        ok, out = c.coq_eval("Imports_%s.v" % alias, "\n".join(src), timeout=600)
+        if not ok:
+            c.obligation("coq-eval:Imports_%s.v" % alias, False, out[-2000:])
+            return
+        m = re.search(r"RES\s*=\s*(.*?)\s*:\s*list \(nat \* nat\)", out, re.S)
+        if not m:
+            c.obligation("coq-eval-parse:Imports_%s.v" % alias, False, out[-2000:])
+            return
+        for a, b in re.findall(r"\((\d+), (\d+)\)", m.group(1)):
+            r, f = irules[int(a)], files[int(b)]
+            c.fail("corr", "engine verdict of File().Imports differs from the model's file_imports over the file's import path literals",
+                   input={"where": r["src"], "file": f["name"], "import_path_literals": [lit for lit, _ in f["specs"]], "gotypesalias": alias},
+                   observed=r["obs"][int(b)]["verdict"])
+        c.coverage["imports_model_cases"] = c.coverage.get("imports_model_cases", 0) + len(irules) * len(files)
+
     def observe(alias, only=None):
         args = ["-tmp", os.path.join(c.work, "tmp")]
         if only:
@@ -127,6 +175,7 @@ def run(c):
             c.obligation("harness-run:c02(gotypesalias=%s)" % alias, False, out[-3000:])
         model_in[alias] = ([json.loads(l) for l in out.splitlines() if l.startswith('{') and '"k":"gexpr"' in l],
                            [json.loads(l) for l in out.splitlines() if l.startswith('{') and '"k":"gsink"' in l])
+        model_in[("impfiles", alias)] = [json.loads(l) for l in out.splitlines() if l.startswith('{"index"') or (l.startswith('{') and '"k":"impfile"' in l)]
         return rules
 
     def expected(o):
@@ -202,7 +251,7 @@ def run(c):
                            "analysed from memory with nothing saved at its path)" % r["name"], input=site,
                            expected={"as on the saved file": o["verdict"]}, observed={"in memory": o["detached"]})
                 # K tuple
-                if r["kind"] in ("list", "tail", "stmt", "single", "first", "second", "seq", "pair", "file") and ctor in lifted:
+                if r["kind"] in ("list", "tail", "stmt", "single", "first", "second", "seq", "pair", "file", "imports") and ctor in lifted:
                     shape = {"one": 0, "exprstmt": 1, "stmt": 2, "list": 3}.get(o["shape"])
                     if shape is None or 2 in o["facts"]:
                         continue
@@ -259,6 +308,7 @@ def run(c):
         rules = observe(alias)
         compare(rules, alias)
         compare_helpers(rules, alias)
+        compare_imports(rules, alias)
     missing = {k: sorted(set(LIST_CLASSES) - v) for k, v in list_cov.items() if set(LIST_CLASSES) - v}
     for k in sorted(k for k, v in lifted.items() if v and k not in list_cov):
         missing[k] = list(LIST_CLASSES)
